@@ -7,7 +7,7 @@
 //! @funcs ReadCtxt::{read_u8..read_i64be, read, read_array, read_array_stride, read_array_dep, read_array_upto_hack, read_scope, read_slice, check_avail, read_unchecked_*}
 //! @funcs ReadScope::{offset, offset_length, ctxt, read}, ReadArray::{len, get_item, read_item, last, iter, iter_res, binary_search_by, check_index}, ReadArrayCow::*
 //! @bound buffers <= 12 bytes with symbolic length and symbolic cursor; array lengths 0..=4; every length/offset/stride/index argument ranges over all of usize
-//! @out buffers longer than 12 bytes, arrays longer than 4 elements, sequences of more than 3 reader operations, ReadCache (HashMap)
+//! @out buffers longer than 12 bytes, arrays longer than 4 elements, sequences of more than 3 reader operations (c14_three_step_sequences covers every sequence of 3), ReadCache (HashMap)
 
 use crate::util::*;
 use allsorts::binary::read::{CheckIndex, ReadArray, ReadArrayCow, ReadCtxt, ReadScope};
@@ -208,6 +208,11 @@ fn c14_read_array_stride_any() {
             match array.get_item(i) {
                 Some(v) => assert!(i < n && v == be16(&buf, i * stride)),
                 None => assert!(i >= n),
+            }
+            // read_item and iter_res see the same elements as get_item and iter
+            match array.read_item(i) {
+                Ok(v) => assert!(i < n && v == be16(&buf, i * stride), "read_item on a strided array"),
+                Err(e) => assert!(i >= n && e == ParseError::BadIndex),
             }
             kani::cover!(n == 2 && stride == 5, "two elements, stride 5");
         }
@@ -544,4 +549,84 @@ fn c14_failed_read_has_no_effect() {
         assert!(remaining(&a) == remaining(&b));
         kani::cover!(which % 5 == 3, "failed array read");
     }
+}
+
+/// Sequences of three reader operations chosen freely from the typed reads, read_slice
+/// and read_array with arbitrary arguments: after every step the cursor is where a
+/// reference cursor says it is (advanced by exactly the size on success, unchanged on
+/// failure) and every value returned is the big-endian value at the reference cursor.
+// @bound every sequence of 3 operations out of {read_u8, read_u16be, read_u32be, read::<U24Be>, read_slice(n), read_array::<U16Be>(n), read_u64be} with n any usize, over any 12-byte buffer truncated anywhere
+#[kani::proof]
+#[kani::unwind(10)]
+fn c14_three_step_sequences() {
+    let buf: [u8; N] = kani::any();
+    let len = any_len(N);
+    let mut ctxt = ReadScope::new(&buf[..len]).ctxt();
+    let mut cur = 0usize; // reference cursor
+    let mut step = 0;
+    while step < 3 {
+        let op: u8 = kani::any();
+        let n: usize = kani::any();
+        let left = len - cur;
+        match op % 7 {
+            0 => match ctxt.read_u8() {
+                Ok(v) => {
+                    assert!(left >= 1 && v == buf[cur]);
+                    cur += 1;
+                }
+                Err(_) => assert!(left < 1),
+            },
+            1 => match ctxt.read_u16be() {
+                Ok(v) => {
+                    assert!(left >= 2 && v == be16(&buf, cur));
+                    cur += 2;
+                }
+                Err(_) => assert!(left < 2),
+            },
+            2 => match ctxt.read_u32be() {
+                Ok(v) => {
+                    assert!(left >= 4 && v == be32(&buf, cur));
+                    cur += 4;
+                }
+                Err(_) => assert!(left < 4),
+            },
+            3 => match ctxt.read::<U24Be>() {
+                Ok(v) => {
+                    assert!(left >= 3 && v == be(&buf, cur, 3) as u32);
+                    cur += 3;
+                }
+                Err(_) => assert!(left < 3),
+            },
+            4 => match ctxt.read_slice(n) {
+                Ok(sl) => {
+                    assert!(n <= left && sl.len() == n);
+                    if n > 0 {
+                        assert!(sl[0] == buf[cur] && sl[n - 1] == buf[cur + n - 1]);
+                    }
+                    cur += n;
+                }
+                Err(_) => assert!(n > left),
+            },
+            5 => match ctxt.read_array::<U16Be>(n) {
+                Ok(a) => {
+                    assert!(n <= left / 2 && a.len() == n);
+                    if n > 0 {
+                        assert!(a.get_item(n - 1) == Some(be16(&buf, cur + 2 * (n - 1))));
+                    }
+                    cur += 2 * n;
+                }
+                Err(_) => assert!(n > left / 2),
+            },
+            _ => match ctxt.read_u64be() {
+                Ok(v) => {
+                    assert!(left >= 8 && v == be(&buf, cur, 8));
+                    cur += 8;
+                }
+                Err(_) => assert!(left < 8),
+            },
+        }
+        assert!(remaining(&ctxt) == len - cur);
+        step += 1;
+    }
+    kani::cover!(cur == len && len == N, "the three steps consumed the whole buffer");
 }
